@@ -64,8 +64,34 @@ def status_inits(body):
 
 def status_guard(body, block, facts):
     """state asserted about a `.status` value by the literals dominating block: variant name or None"""
+    return status_from_lits(lits_of(body, block, facts))
+
+
+def chain_filter_status(facts, t):
+    """status asserted for the elements of an iterator adaptor chain by its `filter` closures (term t = the chain)"""
+    from ..conds import closure_result_lits
+    from ..common import iter_chain
     st = None
-    for l in lits_of(body, block, facts):
+    for x in iter_chain(t):
+        if callee_name(x) != "filter" or len(x[2]) < 2:
+            continue
+        c_ = x[2][1]
+        hops = 0
+        while hops < 20 and c_[0] in ("ref", "deref", "cast", "var"):
+            hops += 1
+            c_ = c_[3] if c_[0] == "var" else c_[1]
+        fcb = facts.body(c_[1]) if c_[0] == "closure" else None
+        if fcb is None:
+            continue
+        s_ = status_from_lits(closure_result_lits(fcb, facts, True))
+        if s_ is not None:
+            st = s_
+    return st
+
+
+def status_from_lits(lits):
+    st = None
+    for l in lits:
         if l.kind == "variant" and l.adt == STATUS and l.variants and len(l.variants) == 1 and \
                 any(z[0] == "field" and z[2] == "status" for z in walk(l.term)):
             st = next(iter(l.variants))      # `match status { Status::X => .. }`
